@@ -276,7 +276,6 @@ StepOK == [][StepRulesHold]_vars
 \* the gate-by-gate walk and the functional composition used by the trace spec agree
 WalkIsRespond == done => out = Respond(cell)
 
-\* vacuity witnesses: each gated action is reachable, and so is each way of being refused
-\* (checked as "never" invariants that must FAIL would stop TLC; instead they are counted in
-\*  the generation leg by checks/ag.py from the emitted predictions)
+\* Vacuity (that every gated action, both kinds of target and the refusals are actually reached on the
+\* real code) is measured on the recorded trace by harness/ag and enforced by checks/ag.py.
 =============================================================================
